@@ -355,6 +355,7 @@ func runC02(c *Ctx) {
 	c.rule("X1", "every path argument of a mutating filesystem call in the extraction call graph belongs to D (derived from the sanitiser's accepted result or the caller's cleaned destination)", 6)
 	c.rule("X2", "every accepting return of sanitiseZipExtractPath is on the true side of a containment predicate over filepath.Join(destination, name) and returns that joined path; a directory derived from the stem of an accepted path cannot be a parent reference", 2)
 	c.rule("X4", "the transcoder of non-UTF-8 names keeps a sanitised path in its directory: it returns its argument, or Join(directory of the argument, converted name) where the converted name was found to be a single path element (equal to its own filepath.Base, not \"..\")", 1)
+	c.contextConverterGoesByIdentity("X7", "the refusal of an escaping entry of a nested archive is re-wrapped with commonerrors.Newf, which starts with this call; its description contains the entry's name and the destination: a nested entry `../../context canceled/evil.txt` is then refused as 'cancelled' instead of 'suspected malicious intent'")
 	c.rule("X3", "the sanitiser refuses with the ErrMalicious kind; unzip returns the sanitiser's error unchanged", 2)
 
 	st := &c02State{c: c, memo: map[ssa.Value]int{}, why: map[ssa.Value]string{}}
